@@ -272,6 +272,7 @@ class Interp:
         self.prog = program
         self.cfgmod = seams.sdk("config")
         self.ctxmod = seams.sdk("context")
+        self.cbs = {}  # label -> (Callback created by a cbdefer statement in THIS invocation, its position)
         self.exc = seams.sdk("exceptions")
         self.retries = seams.sdk("retries")
         self.waits = seams.sdk("waits")
@@ -284,7 +285,13 @@ class Interp:
             context.set_logger(CapLogger(w))
         w.rec("handler-enter", event=canon(event))
         mode = self.prog.get("ret", "obs")
-        obs = self.run_seq(context, self.prog["body"], "r")
+        try:
+            obs = self.run_seq(context, self.prog["body"], "r")
+        except BaseException as e:  # noqa: BLE001 - probe: the instant at which user code stopped (suspension, error)
+            if type(e).__name__ != "SimKilled":
+                w.rec("handler-done", how=type(e).__name__)
+            raise
+        w.rec("handler-done", how="return")
         if mode == "obs":
             res = obs
         elif isinstance(mode, list):
@@ -331,7 +338,10 @@ class Interp:
         w = self.w
         if "ext" in st and pos not in w.externals:
             w.externals[pos] = st["ext"]
-        w.rec("call-begin", pos=pos, op=op)
+        if op == "cbresult":
+            w.rec("call-begin", pos=pos, op=op, ref=(self.cbs.get(st["ref"]) or (None, None))[1])
+        else:
+            w.rec("call-begin", pos=pos, op=op)
         try:
             v = meth(ctx, st, pos, item)
         except (self.exc.SuspendExecution, self.exc.OrphanedChildException, self.exc.BackgroundThreadError) as e:
@@ -490,6 +500,26 @@ class Interp:
         self.w.rec("cb-result-call", pos=pos)
         res = cb.result()
         return ["cb", between, res]  # the backend-issued id is not part of the observation (it differs between executions)
+
+    def op_cbdefer(self, ctx, st, pos, item):
+        """create_callback now, result() somewhere else (statement cbresult with the same label)."""
+        C = self.cfgmod
+        c = st.get("cfg") or {}
+        if c:
+            cb = ctx.create_callback(name=pos, config=C.CallbackConfig(timeout=C.Duration(seconds=c.get("timeout", 0)),
+                                                                       heartbeat_timeout=C.Duration(seconds=c.get("hb", 0))))
+        else:
+            cb = ctx.create_callback(name=pos)
+        self.w.rec("cb-created", pos=pos, callback_id=cb.callback_id)
+        self.cbs[st["label"]] = (cb, pos)
+        return ["cbd"]
+
+    def op_cbresult(self, ctx, st, pos, item):
+        ent = self.cbs.get(st["ref"])
+        if ent is None:
+            raise RuntimeError(f"no callback labelled {st['ref']} was created in this invocation")  # only after minimisation
+        self.w.rec("cb-result-call", pos=pos)
+        return ent[0].result()
 
     def op_wfc(self, ctx, st, pos, item):
         C = self.cfgmod
